@@ -143,6 +143,7 @@ class ModelBuild:
         self.created = set()
         self.forest = []
         self.overwritten_foreign = set()
+        self.fault_inv = None          # C14: the call (by key) that fails in setup with an injected OSError
 
     # ---- queries on the virtual view ---------------------------------------------------------
     def q(self, kind, p):
@@ -285,6 +286,12 @@ class ModelBuilder:
             node.setup_failed = True
             node.exc = 'RuntimeError'
             raise RuntimeError('model: duplicate subbuild')
+        if mb.fault_inv is not None and mb.fault_inv == 'S:%s:%s' % (fname, canon_text([a, kw])):
+            mb.fault_inv = None
+            node.raised = True
+            node.setup_failed = True
+            node.exc = 'OSError'
+            raise OSError(5, 'model: injected fault')
         mb.claimed_subs.add(key)
         sub = ModelBuilder(mb, node)
         try:
@@ -338,6 +345,9 @@ class ModelBuilder:
             d = nd
         if v.is_file(d):
             setup_fail(NotADirectoryError(d))
+        if mb.fault_inv is not None and mb.fault_inv == 'F:' + p:
+            mb.fault_inv = None
+            setup_fail(OSError(5, 'model: injected fault'))
         to_make.reverse()
         for d in to_make:
             if len(os.path.basename(d).encode()) > NAME_MAX:
